@@ -39,12 +39,35 @@ func GetRMRemotingInstance() *RMRemoting {
 	if rmRemoting == nil {
 		onceGettyRemoting.Do(func() {
 			rmRemoting = &RMRemoting{}
+			// every resource announced so far is announced again on a session opened later (reconnect):
+			// the coordinator routes phase two by the resources a session has registered
+			getty.AddSessionOpenListener("rm-resources", rmRemoting.announceResources)
 		})
 	}
 	return rmRemoting
 }
 
-type RMRemoting struct{}
+type RMRemoting struct {
+	// resource id -> true, every resource RegisterResource was called for
+	registeredResources sync.Map
+}
+
+func (r *RMRemoting) announceResources(send func(msg interface{}) error) {
+	r.registeredResources.Range(func(key, value interface{}) bool {
+		req := message.RegisterRMRequest{
+			AbstractIdentifyRequest: message.AbstractIdentifyRequest{
+				Version:                 "1.5.2",
+				ApplicationId:           rmConfig.ApplicationID,
+				TransactionServiceGroup: rmConfig.TxServiceGroup,
+			},
+			ResourceIds: key.(string),
+		}
+		if err := send(req); err != nil {
+			log.Errorf("announce resource %s on the new session error: %v", key, err)
+		}
+		return true
+	})
+}
 
 // BranchRegister  Register branch of global transaction
 func (r *RMRemoting) BranchRegister(param BranchRegisterParam) (int64, error) {
@@ -124,6 +147,7 @@ func (r *RMRemoting) RegisterResource(resource Resource) error {
 		},
 		ResourceIds: resource.GetResourceId(),
 	}
+	r.registeredResources.Store(resource.GetResourceId(), true)
 	res, err := getty.GetGettyRemotingClient().SendSyncRequest(req)
 	if err != nil {
 		log.Errorf("RegisterResourceManager error: {%#v}", err.Error())
